@@ -35,6 +35,13 @@ def tank_spec(rng):
     o = spec["options"]
     o["report_timestep"] = "ALL"
     o["duration"] = o["hydraulic_timestep"] * rng.randint(8, 20)
+    if rng.random() < 0.5:
+        # a rule step that does not divide the hydraulic step (rule instants are visited whether or not rules exist)
+        if rng.random() < 0.5:
+            o["hydraulic_timestep"] = 900
+            o["pattern_timestep"] = rng.choice([900, 1800, 3600])
+            o["duration"] = 900 * rng.randint(8, 20)
+        o["rule_timestep"] = rng.choice([420, 360 if o["hydraulic_timestep"] == 900 else 700, 700, 250])
     for t in spec["tanks"]:
         t["diameter"] = round(rng.uniform(1.5, 4.0), 1)           # small: levels move fast
         t["min_level"] = round(rng.uniform(0.3, 1.0), 2)
